@@ -182,7 +182,7 @@ func (e *Executor) offchain(op MidOp) {
 				res.Value = strings.Join(nodes, ",")
 				res.Digest = dig(nodes)
 			}
-		case "relay", "relayburst", "evidence", "autotx":
+		case "relay", "relayburst", "evidence", "autotx", "sleep":
 			e.relayOp(op, res)
 		default:
 			res.Err = "unknown off-chain op " + op.Kind
